@@ -522,12 +522,14 @@ pub fn process_single_version<T: Deref<Target = rusqlite::Connection> + Committa
                 .expect("no changeset parts, this shouldn't be happening!"),
         )?;
 
-        if check_buffered_meta_to_clear(&sp, actor_id, changeset.versions())?
-            && let Err(e) = agent
+        if check_buffered_meta_to_clear(&sp, actor_id, changeset.versions())? {
+            forget_partial_bookkeeping(&sp, actor_id, changeset.versions())?;
+            if let Err(e) = agent
                 .tx_clear_buf()
                 .try_send((actor_id, changeset.versions()))
-        {
-            error!("could not schedule buffered meta clear: {e}");
+            {
+                error!("could not schedule buffered meta clear: {e}");
+            }
         }
         changes_per_table = table;
 
@@ -835,6 +837,25 @@ pub async fn process_multiple_changes(
                             }
                         })?;
                     }
+                    // chunks of these versions may have been buffered before we learned they are empty
+                    check_buffered_meta_to_clear(&tx, change.actor_id, versions.clone())
+                        .and_then(|should_clear| {
+                            if should_clear {
+                                forget_partial_bookkeeping(&tx, change.actor_id, versions.clone())?;
+                                if let Err(e) = agent
+                                    .tx_clear_buf()
+                                    .try_send((change.actor_id, versions.clone()))
+                                {
+                                    error!("could not schedule buffered meta clear: {e}");
+                                }
+                            }
+                            Ok(())
+                        })
+                        .map_err(|e| ChangeError::Rusqlite {
+                            source: e,
+                            actor_id: Some(change.actor_id),
+                            version: Some(end),
+                        })?;
                     KnownDbVersion::Cleared
                 } else {
                     if let Some(seqs) = change.seqs()
@@ -1321,6 +1342,20 @@ pub fn process_complete_version<T: Deref<Target = rusqlite::Connection> + Commit
     };
 
     Ok::<_, rusqlite::Error>((known_version, new_changeset, changes_per_table))
+}
+
+/// The versions are fully known now: drop the partial (sequence) bookkeeping rows in the same
+/// transaction, so that a restart does not reload a version we hold as partially received.
+/// The (potentially many) buffered change rows are left to `clear_buffered_meta_loop`.
+fn forget_partial_bookkeeping(
+    conn: &Connection,
+    actor_id: ActorId,
+    versions: RangeInclusive<CrsqlDbVersion>,
+) -> rusqlite::Result<usize> {
+    conn.prepare_cached(
+        "DELETE FROM __corro_seq_bookkeeping WHERE site_id = ? AND db_version >= ? AND db_version <= ?",
+    )?
+    .execute(params![actor_id, versions.start(), versions.end()])
 }
 
 pub fn check_buffered_meta_to_clear(
